@@ -279,6 +279,22 @@ m("c19-timeouts-skip-nanos", 'src/managed/config.rs',
     #[cfg_attr(feature = "serde", serde(skip_serializing_if = "Option::is_none"))]
     pub wait: Option<Duration>,""", ["C19"])
 
+RT='runtime/src/lib.rs'
+# behind the spawn_blocking seam (the hook sits in front of this code): only the
+# real-runtime scenario of C14 can see these
+m("c14-spawn-blocking-inline", RT,
+"""            Self::Tokio1 => tokio_1::task::spawn_blocking(f)
+                .await
+                .map_err(|e| SpawnBlockingError::Panic(e.into_panic())),""",
+"""            Self::Tokio1 => tokio_1::task::block_in_place(|| std::panic::catch_unwind(std::panic::AssertUnwindSafe(f)))
+                .map_err(SpawnBlockingError::Panic),""", ["C14"])
+m("c14-background-job-inline", RT,
+"""                drop(tokio_1::task::spawn_blocking(f));
+                Ok(())""",
+"""                f();
+                Ok(())""", ["C14"])
+
+
 def run(cmd, **kw):
     return subprocess.run(cmd, shell=True, capture_output=True, text=True, **kw)
 
